@@ -31,6 +31,19 @@ Theorem each_ok_after_any_prefix : forall l m,
 Proof. exact each_ok_after_any_prefix_l. Qed.
 Print Assumptions each_ok_after_any_prefix.
 
+(* No package __init__ body binds a name that is also a submodule file of that package to anything
+   but that submodule (generated tables [pkg_bindings], [submodule_files]; star imports expanded). *)
+Theorem no_shadowed_submodule : no_shadow_b pkg_bindings submodule_files = true.
+Proof. exact no_shadowed_submodule_l. Qed.
+Print Assumptions no_shadowed_submodule.
+
+(* Hence `from pkg import sub` yields the submodule pkg.sub whatever was imported before
+   (after = the submodule was / was not imported explicitly after the package body ran). *)
+Theorem from_import_history_independent : forall p n sub, In (p, n, sub) submodule_files ->
+  forall after, from_import (lookup_binding pkg_bindings p n) after sub = sub.
+Proof. exact from_import_history_independent_l. Qed.
+Print Assumptions from_import_history_independent.
+
 (* the generic monotonicity (simulation) lemma the two theorems above rest on, for EVERY graph:
    if S is closed under imports and the state u is the state t plus all of S finished, a
    successful import from t also succeeds from u and keeps the relation *)
